@@ -24,6 +24,10 @@ def bases(ctx):
     out.append(dict(rewards=[0, 1, 0, 0, 0], players=[P2, PR, P1, PR, PR],
                     transition_list=[[("a", 1), ("b", 2)], [(0.25, 0), (0.25, 3), (0.5, 4)], [("a", 3), ("b", 4), ("c", 1)], [(1, 3)], [(1, 4)]],
                     final_states=[4, 4, 3]))
+    # legal oddities: a zero-probability branch, probability written as int 1, float and large rewards, finals in descending order
+    out.append(dict(rewards=[0.5, 1000000, 0, 0, 0], players=[PR, P1, PR, PR, PR],
+                    transition_list=[[(0, 2), (0.5, 1), (0.5, 3)], [("go", 4), ("go_back", 0)], [(1, 2)], [(1, 3)], [(1.0, 4)]],
+                    final_states=[4, 3]))
     out.sort(key=lambda g: (len(g["players"]), sum(len(r) for r in g["transition_list"])))
     return out
 
@@ -208,6 +212,26 @@ def observe_after(history, game):
     return f
 
 
+def observe_batch_after(base, game):
+    """the malformed game placed AFTER a well-formed one in the same batch must still be recorded as rejected"""
+    def fb():
+        return CR.run_games({"a_ok": copy.deepcopy(base), "g": copy.deepcopy(game)})
+    st, val = budget.run_budgeted(fb, cpu_s=2.0, max_lines=2_000_000)
+    if st != "ok":
+        what = ("%s: %s" % (type(val).__name__, val)) if st == "exc" else "no termination"
+        return [("C09/batch-crash-after-good-game", what, "recorded message",
+                 "run_games on {well-formed game, malformed game} crashed instead of recording the error: %s" % what)]
+    r = val
+    ok = isinstance(r, dict) and list(r.keys()) == ["a_ok", "a_ok_no_prune", "g", "g_no_prune"] \
+        and isinstance(r["g"].get("msg"), str) and r["g"]["msg"].startswith("Error while solving the game:") \
+        and r["g_no_prune"].get("msg") == "Game not solved" and r["g"].get("rewards") is None and r["g_no_prune"].get("rewards") is None
+    if not ok:
+        got = {k: r[k].get("msg") for k in r} if isinstance(r, dict) else repr(r)[:100]
+        return [("C09/batch-not-recorded-after-good-game", got, {"g": "Error while solving the game: ...", "g_no_prune": "Game not solved"},
+                 "run_games on {well-formed game, malformed game} did not record the rejection of the second: %r" % (got,))]
+    return []
+
+
 def observe_base(game):
     f = []
     for prune in (True, False):
@@ -275,6 +299,15 @@ def work(shard):
                     if len([v for v in out["violations"] if v["klass"] == f[0]]) < 2:
                         out["violations"].append(c)
                 found = [f for f in found if f is not None]
+            if len(combo) == 1 and base_quick:
+                out["executions"] += 4
+                out["batch_after_good"] = out.get("batch_after_good", 0) + 1
+                for f in observe_batch_after(g, x):
+                    c = mk_case(x, labels, f)
+                    c["config"]["batch_after"] = g
+                    out["n_violations"] += 1
+                    if len([v for v in out["violations"] if v["klass"] == f[0]]) < 2:
+                        out["violations"].append(c)
             for f in found:
                 out["n_violations"] += 1
                 if len([c for c in out["violations"] if c["klass"] == f[0]]) < 2:
@@ -309,7 +342,8 @@ def run(ctx):
     cov = {"states": tot["games"], "transitions": tot["executions"], "traces_validated_against_impl": tot["games"],
            "evaluations": tot["games"], "distinct_nontrivial": tot["games"], "bases": tot["bases"],
            "single_deviations": tot["single"], "deviation_pairs": tot["pairs"],
-           "single_deviations_replayed_after_a_well_formed_primer_containing_their_rows": tot.get("primed", 0), "pairs_on_smallest_bases": pair_bases,
+           "single_deviations_replayed_after_a_well_formed_primer_containing_their_rows": tot.get("primed", 0),
+           "single_deviations_run_in_a_batch_after_their_well_formed_base": tot.get("batch_after_good", 0), "pairs_on_smallest_bases": pair_bases,
            "single_deviations_per_rule": tot["rules"], "rule": RULE, "exhaustive": not tot.get("truncated"),
            "samples": tot["samples"][:3]}
     return {"coverage": cov, "violations": tot["violations"], "assumptions": ASSUME}
@@ -317,6 +351,9 @@ def run(ctx):
 
 def replay(case):
     g = case["input"]
+    if case["config"].get("batch_after"):
+        f = observe_batch_after(case["config"]["batch_after"], g)
+        return f[0][3] if f else None
     if case["config"].get("history"):
         f = observe_after(case["config"]["history"], g)
         return f[0][3] if f else None
